@@ -197,10 +197,28 @@ def report_k3(rep, prop, res, direct, indirect, oracle_keys):
                      [m for _, m in indirect], [], str)
 
 
+def k7_part(rep, prop, tier, seed):
+    """source conversions against the collection's own sequential iterator (direct oracle)"""
+    import k7
+    res = k7.run_k7(tier, seed)
+    rep.correspondences.append("K7 source conversions: every par()/into_par() (std collections by reference and by value incl. "
+                               "wrapped / popped states, maps, concurrent iterators, views, plain iterators) x 9 pipelines x 6 "
+                               "settings vs the collection's own sequential iterator")
+    rep.evaluations += res["total"]
+    rep.count("k7_conversions", res["conversions"])
+    for e in res["errors"]:
+        rep.violation("K7 could not run: " + e, {"failing_input_found": False, "theorem_or_correspondence": "K7"})
+    for m in res["mismatch"].get(prop, [])[:3]:
+        rep.violation("a source conversion yields something else than the collection's sequential iterator",
+                      {"failing_input_found": True, "correspondence": "K7", "input": m})
+
+
 def make_result_check(prop, terms, extra_kinds=(), oracle_keys=(), seq=None, with_k1=False):
     def check(rep, tier, seed):
         coq_part(rep, prop)
         res = k3_part(rep, tier, seed)
+        if prop in ("C01", "C02", "C03", "C04", "C07"):
+            k7_part(rep, prop, tier, seed)
 
         def pred(m):
             if terms is not None and m.get("term") not in terms:
